@@ -553,6 +553,13 @@ func init() {
 	reg("runtime.Callers", func(in *Interp, fr *frame, args []Value) Value { return BV(64, 0) })
 	reg("runtime.FuncForPC", func(in *Interp, fr *frame, args []Value) Value { return (*Value)(nil) })
 
+	// --- strings.Builder: String() is unsafe.String(unsafe.SliceData(buf), len(buf)) ---
+	reg("(*strings.Builder).String", func(in *Interp, fr *frame, args []Value) Value {
+		st := (*args[0].(*Value)).(Struct)
+		return sliceAsStr(st[len(st)-1].(Slice))
+	})
+	reg("(*strings.Builder).copyCheck", func(in *Interp, fr *frame, args []Value) Value { return nil })
+
 	// --- float bit patterns (transport only) ---
 	reg("math.Float64frombits", func(in *Interp, fr *frame, args []Value) Value {
 		t := args[0].(*Term)
